@@ -23,6 +23,8 @@ FRAGS = ["<%", "%>", "</%", "${", "}", "{", "%", "%%", "##", "#", "\\", "\n", "\
          "/>", "/", "<", "$", "=", ",", "<%text>", "</%text>", "<%doc>", "</%doc>", '<%def name="f()">', "</%def>",
          "if x:", "endif", "for i in y:", "a", "é", "\U0001d4b3", " ", "x=1"]
 
+FRAGS += ["# coding: utf-8\n", "## -*- coding: latin-1 -*-\n"]
+
 MSG_KIND = [("Expected:", "unterminated"), ("Invalid control line", "invalidcontrol"), ("No starting keyword", "nostart"),
             ("doesn't match keyword", "kwmismatch"), ("not a legal ternary", "badternary"), ("Unclosed tag", "unclosedtag"),
             ("Unterminated control keyword", "unterminatedcontrol"), ("Closing tag without", "closenoopen"),
@@ -177,7 +179,19 @@ def gen_document(rng):
         if not at_bol:
             pieces.append("\n"); exp.append("\n")
         pieces.append("% endif\n" * depth)
-    return "".join(pieces), "".join(exp)
+    src, out = "".join(pieces), "".join(exp)
+    # magic coding comments: only on the very first line are they consumed; elsewhere a "# coding" line is
+    # literal text and a "## coding" line is an ordinary Mako comment
+    r = rng.random()
+    if r < 0.05:
+        src, out = "# -*- coding: utf-8 -*-\n" + src, out
+    elif r < 0.10:
+        src, out = "\n## -*- coding: utf-8 -*-\n" + src, "\n" + out
+    elif r < 0.15:
+        src, out = "# generated\n# coding: utf-8\n" + src, "# generated\n# coding: utf-8\n" + out
+    elif r < 0.20:
+        src, out = "#!shebang\n## coding=utf-8\n" + src, "#!shebang\n" + out
+    return src, out
 
 
 def timing_families():
